@@ -544,7 +544,14 @@ func (fv *FuncVC) VerifyTop() {
 // module state outside the declaration (type-level check by the effect analysis).
 func (fv *FuncVC) frameObligation() {
 	con := fv.con
-	if con == nil || !(con.Pure || con.HasAssigns) {
+	if con == nil {
+		return
+	}
+	if !(con.Pure || con.HasAssigns) {
+		if len(con.Implements) > 0 {
+			body, all := fv.v.BodyEffects(fv, fv.fn)
+			fv.implementsFrame(body, all)
+		}
 		return
 	}
 	body, all := fv.v.BodyEffects(fv, fv.fn)
@@ -558,7 +565,7 @@ func (fv *FuncVC) frameObligation() {
 			case it.All:
 				allowAll = true
 			case it.TypeT != "":
-				for _, hk := range fv.readKeys(it.TypeT+"::"+it.Field, pkgOf(fv.fn)) {
+				for _, hk := range fv.readKeys(it.keySpec(), pkgOf(fv.fn)) {
 					allowed[hk.Key] = true
 				}
 			default:
@@ -594,6 +601,63 @@ func (fv *FuncVC) frameObligation() {
 		o.Model = "writes outside the declared frame: " + strings.Join(bad, ", ")
 	}
 	fv.obls = append(fv.obls, o)
+	fv.implementsFrame(body, all)
+}
+
+// implementsFrame: a function that implements an interface method contract with an assigns clause must
+// keep its computed write set within that clause (call sites of the interface method havoc only that).
+func (fv *FuncVC) implementsFrame(body []string, all bool) {
+	for _, impl := range fv.con.Implements {
+		ic := fv.v.ifaceCon[impl]
+		if ic == nil {
+			ic = fv.v.ifaceCon[modulePath+"/"+impl]
+		}
+		if ic == nil || !ic.HasAssigns {
+			continue
+		}
+		var ipkg *types.Package
+		if p, ok := fv.v.allPkgs[ic.Pkg]; ok {
+			ipkg = p.Types
+		}
+		allowed := map[string]bool{}
+		allowAll := false
+		for _, it := range fv.expandAssigns(ic.Assigns, ipkg) {
+			switch {
+			case it.Computed, it.All:
+				allowAll = true
+			case it.TypeT != "":
+				for _, hk := range fv.readKeys(it.keySpec(), ipkg) {
+					allowed[hk.Key] = true
+				}
+			case strings.HasPrefix(it.Text, "ghost."):
+				for _, hk := range fv.readKeys(it.Text, ipkg) {
+					allowed[hk.Key] = true
+				}
+			default:
+				engineErr("interface contract %s: assigns item %q must be type-level (T::field, elems[T], map[K]V, ghost.g)", impl, it.Text)
+			}
+		}
+		var bad []string
+		if all && !allowAll {
+			bad = append(bad, "* (unknown callee)")
+		}
+		if !allowAll {
+			for _, k := range body {
+				if isModuleKey(k) && !allowed[k] {
+					bad = append(bad, k)
+				}
+			}
+		}
+		o := &Obligation{Name: fmt.Sprintf("%s/%s/frame[implements %s]", fv.prop, fv.funcName(), impl), Kind: "frame", Func: fv.funcName(), Pos: fv.pos(fv.fn.Pos()),
+			Text: "computed write set of the body is within the assigns clause of the interface contract " + impl, ctx: fv.ctx, Static: true, Solver: "effect-analysis"}
+		if len(bad) == 0 {
+			o.Result = "unsat"
+		} else {
+			o.Result = "failed"
+			o.Model = "writes outside the interface contract's frame: " + strings.Join(bad, ", ")
+		}
+		fv.obls = append(fv.obls, o)
+	}
 }
 
 // finalize adds facts that must be visible to every query: implements-facts for all registered
